@@ -38,9 +38,8 @@ VARIABLES pi, s, steps
 ASSUME TLCSet(7, ndJsonDeserialize(IOEnv.TRACE))
 Recs == TLCGet(7)
 INSTANCE VM WITH Progs <- Recs
-OpJump == OpCode("Jump")
-OpConstant == OpCode("Constant")
-Transfers == {OpCode("Jump"), OpCode("JumpIfFalse"), OpCode("JumpIfFalseNoPop"), OpCode("Call"), OpCode("Return"), OpCode("ReturnValue")}
+\* opcode numbers as the real code numbers them (record field opc: name -> number)
+TransferNames == {"Jump", "JumpIfFalse", "JumpIfFalseNoPop", "Call", "Return", "ReturnValue"}
 
 VARIABLES l,      \* next event of the trace (1-based); 0 when the execution has its verdict
           aux     \* per-frame bookkeeping for C07: <<marks, heads>> association lists
@@ -79,13 +78,13 @@ Frame0 == [marks |-> <<>>, heads |-> <<>>]
 \* marker statements are string constants starting with the section sign
 IsMarkerAt(st) ==
   LET fr == TopF(st)  code == Fn(P, fr.fn).code IN
-  /\ fr.ip + 3 <= Len(code) /\ code[fr.ip + 1] = OpConstant
+  /\ fr.ip + 3 <= Len(code) /\ code[fr.ip + 1] = P.opc.Constant
   /\ LET ci == Operands(P.widths, code, fr.ip)[1]
      IN ci + 1 <= Len(P.consts) /\ P.consts[ci + 1].k = "str" /\ Len(P.consts[ci + 1].v) >= 1 /\ P.consts[ci + 1].v[1] = 167
 MarkerKey(st) == LET fr == TopF(st) IN P.consts[Operands(P.widths, Fn(P, fr.fn).code, fr.ip)[1] + 1].v
 IsBackJump(st) ==
   LET fr == TopF(st)  code == Fn(P, fr.fn).code IN
-  fr.ip + 3 <= Len(code) /\ code[fr.ip + 1] = OpJump /\ Operands(P.widths, code, fr.ip)[1] <= fr.ip
+  fr.ip + 3 <= Len(code) /\ code[fr.ip + 1] = P.opc.Jump /\ Operands(P.widths, code, fr.ip)[1] <= fr.ip
 \* aux brought to the machine's frame depth, then the discipline check for the instruction about to run:
 \* "" or what is wrong
 AuxFit(a, depth) == IF Len(a) > depth THEN SubSeq(a, 1, depth)
@@ -116,7 +115,7 @@ InvBroken(st, op) ==
     [] ~(/\ Len(st.frames) >= 1 /\ st.frames[1].bp = 0 /\ st.sp <= StackSize
          /\ \A i \in 2..Len(st.frames) : st.frames[i].bp > st.frames[i - 1].bp + Fn(P, st.frames[i - 1].fn).nl
          /\ (Running(st) => st.sp >= top.bp + Fn(P, top.fn).nl)) -> "FramesNested"
-    [] Running(st) /\ op \in Transfers /\ ~(top.ip = Len(Fn(P, top.fn).code) \/ top.ip \in InstrStarts(P.widths, Fn(P, top.fn).code)) -> "FetchAligned"
+    [] Running(st) /\ op < Len(P.opnames) /\ P.opnames[op + 1] \in TransferNames /\ ~(top.ip = Len(Fn(P, top.fn).code) \/ top.ip \in InstrStarts(P.widths, Fn(P, top.fn).code)) -> "FetchAligned"
     [] OTHER -> ""
 
 \* ------------------------------- verdicts ----------------------------------
